@@ -53,6 +53,8 @@ def run(ctx):
         W_ = {ty: (f,) + tuple(wire.writer(fx, f, S_, L_)) for ty, f in sorted(S_.items())}
         c08.r08_8(ctx, rep, S_, L_, D_, W_)
         ctx.report.rules[-1].id = "R03.6(R08.8)"
+        from .. import wrappers
+        wrappers.vv_conversions(ctx, rep, roles, "C03", "R03.7")
     except ModelError as e:
         rep.rule("R03.x", "shared models")
         rep.violation("C03/" + e.key, e.msg, e.where)
